@@ -24,7 +24,7 @@ CLAIMS = {
              "outside a non-repeating source. TLC requires: the operator pixman actually used (hook event) is a valid "
              "replacement in the cell given by its IS_OPAQUE flags; a flag is only set on an image that is truly "
              "opaque for the request; both presentations leave identical channel values (within one step where "
-             "the variants are evaluated at different precision: SATURATE, 565 sources under float operators).",
+             "the variants are evaluated at different precision: SATURATE, 565 sources under float operators). " + 'The pairs include projective transforms, with a directed family in which one corner of the request falls outside a non-repeating alpha-less source while the opposite corners are inside.' + "",
         ref="5 C09"),
 }
 
